@@ -3,7 +3,7 @@
 From Coq Require Import List NArith Bool Lia ZifyN ZifyBool ZifyNat.
 From PT Require Import Bits PrefixN Laws.
 Import ListNotations.
-Open Scope N_scope.
+Local Open Scope N_scope.
 
 Local Arguments N.add : simpl never.
 Local Arguments N.sub : simpl never.
@@ -397,5 +397,320 @@ Proof.
     { apply N.div_le_lower_bound; [lia|]. rewrite HP in Dc. lia. }
     assert (L2 : B < (A + 1) * D).
     { apply N.div_lt_upper_bound; [lia|]. rewrite HP in Dc, Mc. lia. }
-    split; nia.
+    assert (M1 : A * D * Pb <= B * Pb) by (apply N.mul_le_mono_r; exact L1).
+    assert (M2 : (B + 1) * Pb <= (A + 1) * D * Pb) by (apply N.mul_le_mono_r; lia).
+    rewrite HP. split; lia.
 Qed.
+
+Lemma diff_bit x y : x <> y ->
+  exists L, (forall j, L < j -> N.testbit x j = N.testbit y j) /\
+            N.testbit x L <> N.testbit y L.
+Proof.
+  intros Hne. assert (E : N.lxor x y <> 0) by (intros E; apply N.lxor_eq in E; auto).
+  exists (N.log2 (N.lxor x y)). split.
+  - intros j Hj. apply Bool.xorb_eq. rewrite <- N.lxor_spec.
+    apply N.bits_above_log2. exact Hj.
+  - pose proof (N.bit_log2 _ E) as Hb. rewrite N.lxor_spec in Hb.
+    intros Heq. rewrite Heq, xorb_nilpotent in Hb. discriminate.
+Qed.
+
+(** * The laws *)
+Section Laws.
+Variable w : N.
+Notation mask := (mask_from_len w).
+
+Ltac inv_valid :=
+  repeat match goal with
+         | H : valid w _ = true |- _ => apply valid_iff in H; destruct H as [? ?]
+         end.
+
+Lemma plen_bits_w p : plen p = N.of_nat (length (pbits w p)).
+Proof. rewrite length_pbits, N2Nat.id. reflexivity. Qed.
+
+Lemma peq_spec_w a b : valid w a = true -> valid w b = true ->
+  (peq w a b = true <-> pbits w a = pbits w b).
+Proof.
+  intros Va Vb. inv_valid.
+  rewrite pbits_eq_iff by assumption. unfold peq, pmask.
+  rewrite andb_true_iff, !N.eqb_eq. split.
+  - intros [K1 K2]. split; [exact K2|]. rewrite <- K2 in K1.
+    apply land_mask_eq in K1; assumption.
+  - intros [K1 K2]. split; [|exact K1]. rewrite <- K1. apply land_mask_eq; assumption.
+Qed.
+
+Lemma contains_generic_spec a b : valid w a = true -> valid w b = true ->
+  (contains_generic w a b = true <-> prefix_of (pbits w a) (pbits w b)).
+Proof.
+  intros Va Vb. inv_valid.
+  rewrite pbits_prefix_iff by assumption. unfold contains_generic, pmask.
+  destruct (N.ltb_spec (plen b) (plen a)).
+  - split; [discriminate|intros [? _]; lia].
+  - rewrite N.eqb_eq, land_mask_eq by assumption. split.
+    + intros K1. split; [lia|apply agree_sym; exact K1].
+    + intros [_ K1]. apply agree_sym; exact K1.
+Qed.
+
+Lemma contains_ipnet_spec a b : valid w a = true -> valid w b = true ->
+  (contains_ipnet w a b = true <-> prefix_of (pbits w a) (pbits w b)).
+Proof.
+  intros Va Vb. inv_valid.
+  rewrite pbits_prefix_iff by assumption. unfold contains_ipnet.
+  rewrite !bcast_eq by assumption. unfold pmask. rewrite !land_mask_div by assumption.
+  rewrite andb_true_iff, !N.leb_le, block_incl_iff, agree_div by assumption.
+  split; intros [K1 K2]; (split; [lia|exact K2]).
+Qed.
+
+Lemma contains_spec_w fl a b : valid w a = true -> valid w b = true ->
+  (contains w fl a b = true <-> prefix_of (pbits w a) (pbits w b)).
+Proof.
+  destruct fl; cbn [contains];
+    [apply contains_generic_spec|apply contains_ipnet_spec|apply contains_generic_spec].
+Qed.
+
+Lemma contains_ipnet_generic a b : 1 <= w -> valid w a = true -> valid w b = true ->
+  contains_ipnet w a b = contains_generic w a b.
+Proof.
+  intros _ Va Vb.
+  pose proof (contains_ipnet_spec a b Va Vb) as H1.
+  pose proof (contains_generic_spec a b Va Vb) as H2.
+  destruct (contains_ipnet w a b), (contains_generic w a b); try reflexivity.
+  - symmetry. apply H2, H1. reflexivity.
+  - apply H1, H2. reflexivity.
+Qed.
+
+(** ** is_bit_set *)
+
+Lemma bitmask_bits i j : i < w ->
+  N.testbit (N.lxor (cshr w (ones w) i) (cshr w (ones w) (i + 1))) j = (j =? w - 1 - i).
+Proof.
+  intros Hi. unfold cshr, ones. replace (i <? w) with true by lia.
+  rewrite N.lxor_spec, N.shiftr_spec', ones_bits.
+  destruct (N.ltb_spec (i + 1) w).
+  - rewrite N.shiftr_spec', ones_bits.
+    destruct (N.ltb_spec (j + i) w); destruct (N.ltb_spec (j + (i + 1)) w);
+      destruct (N.eqb_spec j (w - 1 - i)); try reflexivity; lia.
+  - rewrite N.bits_0.
+    destruct (N.ltb_spec (j + i) w); destruct (N.eqb_spec j (w - 1 - i)); try reflexivity; lia.
+Qed.
+
+Lemma is_bit_set_pmask p i :
+  is_bit_set w p i = ((i <? w) && N.testbit (pmask w p) (w - 1 - i))%bool.
+Proof.
+  unfold is_bit_set. cbv zeta.
+  destruct (N.ltb_spec i w) as [Hi|Hi]; cbn [andb].
+  - set (m := N.lxor _ _).
+    assert (Hm : forall j, N.testbit m j = (j =? w - 1 - i))
+      by (intros j; apply bitmask_bits; assumption).
+    destruct (N.eqb_spec (N.land m (pmask w p)) 0) as [Z|Z]; cbn [negb].
+    + apply (f_equal (fun x => N.testbit x (w - 1 - i))) in Z.
+      rewrite N.land_spec, Hm, N.eqb_refl, N.bits_0 in Z. symmetry. exact Z.
+    + destruct (N.testbit (pmask w p) (w - 1 - i)) eqn:E; [reflexivity|].
+      exfalso. apply Z. apply N.bits_inj; intros j. rewrite N.land_spec, Hm, N.bits_0.
+      destruct (N.eqb_spec j (w - 1 - i)); [subst j; rewrite E|]; reflexivity.
+  - unfold cshr. replace (i <? w) with false by lia. replace (i + 1 <? w) with false by lia.
+    reflexivity.
+Qed.
+
+Lemma bit_spec_w p i : valid w p = true ->
+  is_bit_set w p i = nth (N.to_nat i) (pbits w p) false.
+Proof.
+  intros V. inv_valid.
+  rewrite is_bit_set_pmask, nth_pbits, N2Nat.id, pmask_bits by assumption.
+  destruct (N.ltb_spec i w); destruct (N.ltb_spec i (plen p));
+    destruct (N.leb_spec (w - plen p) (w - 1 - i)); destruct (N.ltb_spec (w - 1 - i) w);
+    cbn [andb]; rewrite ?andb_true_r, ?andb_false_r; try reflexivity; lia.
+Qed.
+
+Lemma is_bit_set_high p i : 1 <= w -> valid w p = true -> plen p <= i ->
+  is_bit_set w p i = false.
+Proof.
+  intros _ V Hi. rewrite bit_spec_w by exact V. apply nth_overflow.
+  rewrite length_pbits. lia.
+Qed.
+
+(** ** longest common prefix *)
+
+Lemma lcp_common_gen a b x y p :
+  plen a <= w -> plen b <= w -> x < 2 ^ w -> y < 2 ^ w ->
+  agree w (plen a) x (repr a) -> agree w (plen b) y (repr b) ->
+  plen p = N.min (N.min (lz w (N.lxor x y)) (plen a)) (plen b) ->
+  agree w (plen p) (repr p) x ->
+  pbits w p = common (pbits w a) (pbits w b).
+Proof.
+  intros La Lb Hx Hy Ax Ay Hp Ap.
+  destruct (lz_spec w x y Hx Hy) as (Hk & Hag & Hdiff).
+  set (k := lz w (N.lxor x y)) in *.
+  assert (Apa : agree w (plen p) (repr p) (repr a)).
+  { eapply agree_trans; [exact Ap|]. eapply agree_le; [|exact Ax]. lia. }
+  assert (Apb : agree w (plen p) (repr p) (repr b)).
+  { eapply agree_trans; [exact Ap|]. eapply agree_trans.
+    - eapply agree_le; [|exact Hag]. lia.
+    - eapply agree_le; [|exact Ay]. lia. }
+  apply common_char.
+  - apply pbits_prefix_iff; try lia. split; [lia|exact Apa].
+  - apply pbits_prefix_iff; try lia. split; [lia|exact Apb].
+  - rewrite !length_pbits.
+    destruct (N.eq_dec (plen p) (plen a)) as [E1|E1]; [left; lia|].
+    destruct (N.eq_dec (plen p) (plen b)) as [E2|E2]; [right; left; lia|].
+    right; right. assert (Ek : plen p = k) by lia.
+    rewrite !nth_pbits, N2Nat.id.
+    replace (plen p <? plen a) with true by lia. replace (plen p <? plen b) with true by lia.
+    cbn [andb]. rewrite Ek. rewrite <- Ax, <- Ay by lia. apply Hdiff. lia.
+Qed.
+
+Lemma lcp_len_le fl a b : plen (lcp w fl a b) <= plen a.
+Proof. destruct fl; cbn; lia. Qed.
+
+Lemma lcp_ok_w fl a b : valid w a = true -> valid w b = true -> valid w (lcp w fl a b) = true.
+Proof.
+  intros Va Vb. inv_valid. apply valid_iff. split.
+  - pose proof (lcp_len_le fl a b). lia.
+  - destruct fl; cbn [lcp lcp_generic lcp_ipnet from_repr_len repr]; apply land_mask_lt; lia.
+Qed.
+
+Lemma lcp_spec_w fl a b : valid w a = true -> valid w b = true ->
+  pbits w (lcp w fl a b) = common (pbits w a) (pbits w b).
+Proof.
+  intros Va Vb. inv_valid.
+  assert (Hma : pmask w a < 2 ^ w) by (apply land_mask_lt; assumption).
+  assert (Hmb : pmask w b < 2 ^ w) by (apply land_mask_lt; assumption).
+  assert (Aa : agree w (plen a) (pmask w a) (repr a)) by (apply agree_land_mask; assumption).
+  assert (Ab : agree w (plen b) (pmask w b) (repr b)) by (apply agree_land_mask; assumption).
+  destruct fl; cbn [lcp lcp_generic lcp_ipnet from_repr_len].
+  - apply (lcp_common_gen a b (pmask w a) (pmask w b)); try assumption; cbn [plen repr].
+    + reflexivity.
+    + apply agree_land_mask. lia.
+  - apply (lcp_common_gen a b (repr a) (repr b)); try assumption; cbn [plen repr].
+    + intros i _ _; reflexivity.
+    + intros i _ _; reflexivity.
+    + reflexivity.
+    + apply agree_land_mask. lia.
+  - apply (lcp_common_gen a b (pmask w a) (pmask w b)); try assumption; cbn [plen repr].
+    + reflexivity.
+    + eapply agree_trans; apply agree_land_mask; lia.
+Qed.
+
+Lemma lcp_ipnet_generic_bits a b : 1 <= w -> valid w a = true -> valid w b = true ->
+  pbits w (lcp_ipnet w a b) = pbits w (lcp_generic w Generic a b).
+Proof.
+  intros _ Va Vb.
+  rewrite (lcp_spec_w Ipnet a b Va Vb : pbits w (lcp_ipnet w a b) = _).
+  rewrite (lcp_spec_w Generic a b Va Vb : pbits w (lcp_generic w Generic a b) = _).
+  reflexivity.
+Qed.
+
+Lemma pmask_host_zero p : valid w p = true ->
+  forall i, i < w - plen p -> N.testbit (pmask w p) i = false.
+Proof.
+  intros V i Hi. inv_valid. rewrite pmask_bits by assumption.
+  replace (w - plen p <=? i) with false by lia. cbn [andb]. apply andb_false_r.
+Qed.
+
+Lemma land_mask_idem x len : N.land (N.land x (mask len)) (mask len) = N.land x (mask len).
+Proof. rewrite <- N.land_assoc, N.land_diag. reflexivity. Qed.
+
+Lemma lcp_repr_masked fl a b : 1 <= w -> valid w a = true -> valid w b = true ->
+  repr (lcp w fl a b) = pmask w (lcp w fl a b).
+Proof.
+  intros _ _ _. unfold pmask.
+  destruct fl; cbn [lcp lcp_generic lcp_ipnet from_repr_len plen repr];
+    rewrite ?land_mask_idem; reflexivity.
+Qed.
+
+(** ** the comparison used by the iteration order *)
+
+Lemma nth_pbits_pmask p i : plen p <= w ->
+  nth i (pbits w p) false =
+  ((N.of_nat i <? w) && N.testbit (pmask w p) (w - 1 - N.of_nat i))%bool.
+Proof.
+  intros Hl. rewrite nth_pbits, pmask_bits by assumption.
+  destruct (N.ltb_spec (N.of_nat i) w); destruct (N.ltb_spec (N.of_nat i) (plen p));
+    destruct (N.leb_spec (w - plen p) (w - 1 - N.of_nat i));
+    destruct (N.ltb_spec (w - 1 - N.of_nat i) w);
+    cbn [andb]; rewrite ?andb_true_r, ?andb_false_r; try reflexivity; lia.
+Qed.
+
+Lemma mcmp_spec_w a b : valid w a = true -> valid w b = true ->
+  mcmp w a b = bcmp (pbits w a) (pbits w b).
+Proof.
+  intros Va Vb. inv_valid. unfold mcmp.
+  assert (Hx : pmask w a < 2 ^ w) by (apply land_mask_lt; assumption).
+  assert (Hy : pmask w b < 2 ^ w) by (apply land_mask_lt; assumption).
+  destruct (N.eq_dec (pmask w a) (pmask w b)) as [E|E].
+  - rewrite E, N.compare_refl. symmetry. apply bcmp_eq. intros i.
+    rewrite !nth_pbits_pmask, E by assumption. reflexivity.
+  - destruct (diff_bit _ _ E) as (L & Habove & HL).
+    assert (HLw : L < w).
+    { destruct (N.lt_ge_cases L w) as [|Hge]; [assumption|]. exfalso. apply HL.
+      rewrite (lt_high w _ L Hx Hge), (lt_high w _ L Hy Hge). reflexivity. }
+    assert (Hpre : forall j, (j < N.to_nat (w - 1 - L))%nat ->
+                     nth j (pbits w a) false = nth j (pbits w b) false).
+    { intros j Hj. rewrite !nth_pbits_pmask by assumption. rewrite Habove by lia. reflexivity. }
+    assert (Hia : nth (N.to_nat (w - 1 - L)) (pbits w a) false = N.testbit (pmask w a) L).
+    { rewrite nth_pbits_pmask, N2Nat.id by assumption.
+      replace (w - 1 - (w - 1 - L)) with L by lia. replace (w - 1 - L <? w) with true by lia.
+      reflexivity. }
+    assert (Hib : nth (N.to_nat (w - 1 - L)) (pbits w b) false = N.testbit (pmask w b) L).
+    { rewrite nth_pbits_pmask, N2Nat.id by assumption.
+      replace (w - 1 - (w - 1 - L)) with L by lia. replace (w - 1 - L <? w) with true by lia.
+      reflexivity. }
+    destruct (N.testbit (pmask w a) L) eqn:Ba; destruct (N.testbit (pmask w b) L) eqn:Bb;
+      try (exfalso; apply HL; reflexivity).
+    + rewrite (bcmp_gt _ _ _ Hpre Hia Hib). apply N.compare_gt_iff.
+      apply (lt_by_bit _ _ L); auto. intros j Hj. symmetry. apply Habove. exact Hj.
+    + rewrite (bcmp_lt _ _ _ Hpre Hia Hib). apply N.compare_lt_iff.
+      apply (lt_by_bit _ _ L); auto.
+Qed.
+
+(** ** construction *)
+
+Lemma mask_chk_total len : len <= w -> mask_from_len_chk w len = Some (mask len).
+Proof.
+  intros H. unfold mask_from_len_chk, mask_from_len.
+  destruct (N.eqb_spec len w); [reflexivity|].
+  destruct (N.eqb_spec len 0); [reflexivity|].
+  replace (len <? w) with true by lia. reflexivity.
+Qed.
+
+Lemma from_repr_len_spec fl r l : 1 <= w -> l <= w -> r < 2 ^ w ->
+  let p := from_repr_len w fl r l in
+  valid w p = true /\ plen p = l /\ pbits w p = pbits w (mkpfx r l).
+Proof.
+  intros _ Hl Hr. cbv zeta.
+  destruct fl; cbn [from_repr_len].
+  - split; [apply valid_iff; cbn; auto|]. split; reflexivity.
+  - split; [apply valid_iff; cbn; auto|]. split; reflexivity.
+  - split; [apply valid_iff; cbn [plen repr]; split; [exact Hl|apply land_mask_lt; exact Hl]|].
+    split; [reflexivity|].
+    apply pbits_eq_iff; cbn [plen repr]; try assumption.
+    split; [reflexivity|]. apply agree_land_mask. exact Hl.
+Qed.
+
+Lemma from_repr_len_masking_repr r l :
+  repr (from_repr_len w Masking r l) = N.land r (mask l).
+Proof. reflexivity. Qed.
+
+Theorem pn_laws_w (fl : flavour) : 1 <= w ->
+  prefix_laws pfx (peq w) (contains w fl) (is_bit_set w) plen (lcp w fl) pzero (mcmp w)
+              (pbits w) (fun p => valid w p = true).
+Proof.
+  intros Hw. constructor.
+  - intros p _. apply plen_bits_w.
+  - apply peq_spec_w.
+  - apply contains_spec_w.
+  - intros p i V. apply bit_spec_w. exact V.
+  - apply lcp_ok_w.
+  - apply lcp_spec_w.
+  - apply valid_iff. cbn [pzero plen repr]. split; [lia|apply pow2_pos].
+  - reflexivity.
+  - apply mcmp_spec_w.
+Qed.
+
+End Laws.
+
+Theorem pn_laws (w : N) (fl : flavour) : (1 <= w)%N ->
+  prefix_laws pfx (peq w) (contains w fl) (is_bit_set w) plen (lcp w fl) pzero (mcmp w)
+              (pbits w) (fun p => valid w p = true).
+Proof. apply pn_laws_w. Qed.
+
+Print Assumptions pn_laws.
